@@ -121,8 +121,8 @@ def _inst(k):
 
 def _loop1_inv(st: St, k):
     e = st.env
-    pos, mp = e.get("positions"), e.get("index_1map")
-    if not isinstance(pos, seq.SymList) or not isinstance(mp, seq.SymDict):
+    pos, mp = pyvc.local(st, "positions", seq.SymList), pyvc.local(st, "index_1map", seq.SymDict)
+    if pos is pyvc.UNBOUND or mp is pyvc.UNBOUND:
         return z3.BoolVal(False)
     i = z3.Int("i!1")
     return z3.And(
@@ -135,8 +135,8 @@ def _loop1_inv(st: St, k):
 
 def _loop2_inv(st: St, t):
     e = st.env
-    pos, mp, out = e.get("positions"), e.get("index_1map"), e.get("new_restrictions")
-    if not isinstance(out, seq.SymList) or not isinstance(pos, seq.SymList) or not isinstance(mp, seq.SymDict):
+    pos, mp, out = pyvc.local(st, "positions", seq.SymList), pyvc.local(st, "index_1map", seq.SymDict), pyvc.local(st, "new_restrictions", seq.SymList)
+    if pos is pyvc.UNBOUND or mp is pyvc.UNBOUND or out is pyvc.UNBOUND:
         return z3.BoolVal(False)
     u = z3.Int("u!2")
     return z3.And(
